@@ -187,6 +187,12 @@ def run(check):
           else:
             r_lag.violate('lag filter', gen, cond, 'the MIN_TIMESTAMP_LAG filter `%s` does not compare (now - oldest '
                           'timestamp) > lag against the watermarks layout (%s)' % (why, ', '.join(layout)))
+    # a lag of 0 (the value installed at shutdown) must switch the filter off entirely
+    for sc, gen in gens:
+      for prob in lag_filter_guard(gen):
+        r_lag.violate('lag filter active at lag 0', gen, prob, '%s filters its snapshot by MIN_TIMESTAMP_LAG without testing that the lag '
+                      'is set: with the lag at 0 (as at shutdown) metrics whose oldest timestamp is not in the past are still never '
+                      'handed out' % sc.name)
     if not found:
       r_lag.violate('lag filter missing', 'carbon.cache:TimeSortedStrategy', None, 'no strategy filters its snapshot by '
                     'MIN_TIMESTAMP_LAG', construct='MIN_TIMESTAMP_LAG filter')
@@ -250,6 +256,33 @@ def run(check):
                      'metrics beyond the cursor are never drained' % (sc.name, a, short(bad.ast), a))
       else:
         r_bk.ok('%s: self.%s updated on every store path that adds a metric' % (sc.name, a), so.loc())
+
+
+def lag_filter_guard(gen):
+  """nodes of a generator that filter by MIN_TIMESTAMP_LAG without being under `if settings.MIN_TIMESTAMP_LAG`"""
+  out = []
+  for n in ast.walk(gen.node):
+    cond = None
+    if isinstance(n, (ast.ListComp, ast.GeneratorExp)):
+      lag_names = set()
+      for st in ast.walk(gen.node):
+        if isinstance(st, ast.Assign) and 'MIN_TIMESTAMP_LAG' in unparse(st.value):
+          lag_names |= {t.id for t in st.targets if isinstance(t, ast.Name)}
+      for g_ in n.generators:
+        for i in g_.ifs:
+          if 'MIN_TIMESTAMP_LAG' in unparse(i) or any(isinstance(x, ast.Name) and x.id in lag_names for x in ast.walk(i)):
+            cond = n
+    if cond is None:
+      continue
+    guarded = False
+    p = getattr(n, '_parent', None)
+    while p is not None and p is not gen.node:
+      if isinstance(p, ast.If) and 'MIN_TIMESTAMP_LAG' in unparse(p.test) and any(x is n for s_ in p.body for x in ast.walk(s_)):
+        guarded = True
+      p = getattr(p, '_parent', None)
+    if not guarded:
+      out.append(n)
+  return out
 
 
 def _pass_shape(gen):
